@@ -840,4 +840,45 @@ example : loopOwn [some (.tensor 1 (some [.const 2, .sym "N"]))] [some (.tensor 
     [("o_0", some (.tensor 1 none)), ("o_1", some (.tensor 1 (some [.unk, .const 4])))]
     = [("o_0", some (.tensor 1 (some [.const 2, .unk]))), ("o_1", some (.tensor 1 (some [.unk, .const 4])))] := by decide
 
+/-! ### Types survive the trip through TypeProtos (`Type._to_onnx` / `Type._from_onnx`) -/
+
+theorem fromProto_toProto_dim (d : Dim) : fromProtoDim (toProtoDim d) = normDim d := by
+  cases d with
+  | const n => rfl
+  | sym s => by_cases h : s = "" <;> simp [toProtoDim, fromProtoDim, normDim, h]
+  | unk => rfl
+
+/-- **round trip**: what `_from_onnx` reads back from `_to_onnx` is the type itself (an empty
+    dimension name being the unknown dimension): rank 0 stays rank 0, unknown rank stays unknown, a
+    dimension of size 0 stays 0, symbolic names are kept -/
+theorem fromProto_toProto : ∀ t : Ty, fromProto (toProto t) = normTy t
+  | .tensor e none => rfl
+  | .tensor e (some ds) => by
+    simp only [toProto, fromProto, normTy, Option.map_some, List.map_map]
+    congr 2
+    apply List.map_congr_left
+    intro d _
+    exact fromProto_toProto_dim d
+  | .seq t => by simp [toProto, fromProto, normTy, fromProto_toProto t]
+  | .opt t => by simp [toProto, fromProto, normTy, fromProto_toProto t]
+
+/-- rank 0 is not unknown rank, in either direction -/
+theorem rank0_is_not_unknown (e : Nat) :
+    toProto (.tensor e (some [])) ≠ toProto (.tensor e none)
+    ∧ fromProto (.tensor e (some [])) ≠ fromProto (.tensor e none) := by
+  constructor <;> simp [toProto, fromProto]
+
+/-- a dimension of size 0 is not an unknown dimension, in either direction -/
+theorem zero_dim_is_not_unknown :
+    toProtoDim (.const 0) ≠ toProtoDim .unk ∧ fromProtoDim (.value 0) ≠ fromProtoDim .unset := by
+  constructor <;> simp [toProtoDim, fromProtoDim]
+
+/-- `_to_onnx` loses nothing: it is injective on types without empty dimension names -/
+theorem toProto_injective (t t' : Ty) (h : normTy t = t) (h' : normTy t' = t')
+    (heq : toProto t = toProto t') : t = t' := by
+  rw [← h, ← h', ← fromProto_toProto, ← fromProto_toProto, heq]
+
+example : fromProto (toProto (.seq (.tensor 1 (some [.const 0, .sym "N", .unk, .sym ""]))))
+    = .seq (.tensor 1 (some [.const 0, .sym "N", .unk, .unk])) := by decide
+
 end C05
